@@ -140,6 +140,9 @@ def scenarios():
            {("/c6/stats", "data"): E["s_text"], ("/c6/model.v2", "data"): E["s_bytes"], ("/c6/stats.json", "data"): E["s_obj"]}),
         SC("rekeep-dotted-name-next-to-its-stem", [k("/c6/model", "s_text"), k("/c6/model.v2", "s_text")], k("/c6/model.v2", "s_text_v2"), {("/c6/model", "data"): [E["s_text"]], ("/c6/model.v2", "data"): [E["s_text"]]},
            {("/c6/model", "data"): E["s_text"], ("/c6/model.v2", "data"): E["s_text_v2"]}),
+        # the killed process and the processes that come after it report the same process id
+        SC("commit-path-blob-exists+recycled-pid", [k("/c6/p1", "s_text")], scen.act_with_pid(k("/c6/p2", "s_text"), 7), {("/c6/p1", "data"): [E["s_text"]]}, {("/c6/p1", "data"): E["s_text"], ("/c6/p2", "data"): E["s_text"]}),
+        SC("rekeep-changed-code+recycled-pid", [k("/c6/p", "s_text"), k("/c6/p", "s_text_v2")], scen.act_with_pid(k("/c6/p", "s_text"), 7), {("/c6/p", "data"): [E["s_text_v2"]]}, {("/c6/p", "data"): E["s_text"]}),
         # a table of more than a million rows (a writer may split such a table into several files)
         SC("cold-first-keep-large-frame-parquet", [], k("/c6/bigframe", "s_big_frame"), {}, {("/c6/bigframe", "data"): scen.big_frame_value()}),
     ]
